@@ -57,11 +57,13 @@ var syncOK = map[string]bool{"Locker": true}
 var runtimeOK = map[string]bool{"SetFinalizer": true, "GOMAXPROCS": true, "NumCPU": true}
 
 // time members replaced in the root package.
-var timeShims = map[string]bool{"Now": true, "Until": true, "Since": true}
+var timeShims = map[string]bool{"Now": true, "Until": true, "Since": true, "NewTicker": true}
 
 // time members that observe or wait on the real clock and have no shim:
-// reported. Everything else of package time (types, constants, Unix,
-// NewTicker ...) is left alone silently.
+// reported. Everything else of package time (types, constants, Unix ...) is
+// left alone silently.  NewTicker goes through vclock so that the sequential
+// drivers can silence the janitors (vclock.FreezeTickers); it is time.NewTicker
+// otherwise.
 var timeBad = map[string]bool{"Sleep": true, "After": true, "AfterFunc": true, "NewTimer": true, "Tick": true}
 
 // plain identifiers (linkname'd runtime functions) whose CALLS are replaced
